@@ -959,14 +959,17 @@ def draw_simplices(
 
     if max_order:
         max_edges = SC.edges.filterby("order", max_order, "leq").members()
-        SC = SimplicialComplex(max_edges)  # SC without simplices larger than max_order
+        # SC without simplices larger than max_order ((members, attr) pairs: see below)
+        SC = SimplicialComplex([(members, {}) for members in max_edges])
 
     # Plot only the maximal simplices, thus let's convert the SC to H
     H_ = convert.from_max_simplices(SC)
 
     # add the projected pairwise interactions
     dyads = subfaces(H_.edges.members(), order=1)
-    H_.add_edges_from(dyads)
+    # (members, attr) pairs: a bare pair of labels starting with a string label
+    # would be mistaken for another format
+    H_.add_edges_from([(dyad, {}) for dyad in dyads])
     H_.cleanup(
         multiedges=False,
         isolates=True,
